@@ -141,6 +141,7 @@ pub fn gen_scenario(run_seed: u64, tier: Tier) -> E3Scenario {
         closed_imports: false,
         cover_fragments: false,
         name_collisions: true,
+        mixed_wildcard: rw.chance(1, 8),
         dirs: vec!["/p/src".into(), "/p/src/a".into(), "/p/src/a/b".into(), "/p/lib".into(), "/q".into()],
     };
     let ops = wgen::gen_ops(&mut rw, &schema, &o);
@@ -408,6 +409,14 @@ pub fn check_scenario(sc: &E3Scenario, rep: &mut RunReport) {
     }
     if matches!(r1, Resolved::Ok(_)) != matches!(r2, Resolved::Ok(_)) && !matches!(r1, Resolved::ParseFail(_)) && !matches!(r2, Resolved::ParseFail(_)) {
         rep.violate(&["C13"], "C13.order-dependence-verdict", "permuting import lines flips Ok/Err".into());
+    }
+    // the two texts differ in the order of their import lines only: if one of them is refused
+    // before resolution starts (merging of import lines, wildcard/names exclusivity) so is the other
+    if matches!(r1, Resolved::ParseFail(_)) != matches!(r2, Resolved::ParseFail(_)) {
+        rep.violate(&["C13"], "C13.order-dependence-verdict", "permuting import lines decides whether the document's import lines are accepted at all".into());
+    }
+    if matches!(r1, Resolved::ParseFail(_)) {
+        rep.probe("import_lines_refused");
     }
 }
 
